@@ -18,9 +18,9 @@ package remedies
 //@   ghostlocal pos gmap[int]int
 //@   loop 1 modifies nothing
 //@   loop 1 do src[len(values) - 1] = ite(ppSelected(pathParams, payloadPaths, idx1 - 1), idx1 - 1, src[len(values) - 1]); pos[idx1 - 1] = len(values) - 1
-//@   loop 1 invariant[len] len(values) >= len(payloadPaths) && len(values) <= len(payloadPaths) + idx1
-//@   loop 1 invariant[each-entry-is-name-colon-value] forall(i, len(payloadPaths), len(values), 0 <= src[i] && src[i] < idx1 && ppSelected(pathParams, payloadPaths, src[i]) && values[i] == sprintf("%s:%s", payloadPaths[src[i]].Path, pathParams[payloadPaths[src[i]].Path]))
-//@   loop 1 invariant[each-selected-parameter-has-an-entry] forall(j, 0, idx1, ppSelected(pathParams, payloadPaths, j) ==> len(payloadPaths) <= pos[j] && pos[j] < len(values) && values[pos[j]] == sprintf("%s:%s", payloadPaths[j].Path, pathParams[payloadPaths[j].Path]))
+//@   loop 1 invariant[len] len(values) >= 0
+//@   loop 1 invariant[each-entry-is-name-colon-value] forall(i, 0, len(values), values[i] == "" || (0 <= src[i] && src[i] < idx1 && ppSelected(pathParams, payloadPaths, src[i]) && values[i] == sprintf("%s:%s", payloadPaths[src[i]].Path, pathParams[payloadPaths[src[i]].Path])))
+//@   loop 1 invariant[each-selected-parameter-has-an-entry] forall(j, 0, idx1, ppSelected(pathParams, payloadPaths, j) ==> 0 <= pos[j] && pos[j] < len(values) && values[pos[j]] == sprintf("%s:%s", payloadPaths[j].Path, pathParams[payloadPaths[j].Path]))
 //@   ensures[joined-with-dots] joined == strings.Join(values, ".")
 
 // ---------------------------------------------------------------- response-based throttling (C12)
